@@ -116,6 +116,8 @@ func (o Op) Coq() string {
 			c = "CProbe"
 		case "search":
 			c = "CSearch"
+		case "searchbad":
+			c = "CSearchBad"
 		case "noop":
 			c = "CNoop"
 		case "check":
@@ -386,6 +388,8 @@ func (w *World) Do(o Op) (StepObs, error) {
 		r, err = c.Cmd("UID FETCH 1:* (FLAGS)")
 	case "search":
 		r, err = c.Cmd("SEARCH ALL")
+	case "searchbad":
+		r, err = c.Cmd("SEARCH CHARSET X-UNKNOWN-CHARSET ALL")
 	case "noop":
 		r, err = c.Cmd("NOOP")
 	case "check":
